@@ -2,11 +2,11 @@
 SPECIFICATION Spec
 CONSTANTS
   Keys = {0}
-  Elems = {1, 2, 3}
+  Elems = {1, 2}
   Clients = {1, 2}
   MaxBatches = 4
   MaxOps = 6
-  T = 2
+  T = 1
   LostInsert = TRUE
   FlushMax = TRUE
   FoldCancel = TRUE
